@@ -5,6 +5,8 @@ CONSTANTS Variant = "valperm"
  MCTs = {2}
  MCVs = {2}
  PolyMode = "few"
+ MaxRedel = 0
  OrderMode = "canon"
-INVARIANTS TypeOK NoFailure ThresholdIsT Agreement KeyedByShareIdx OwnShareMatches GroupKeyIsSum AnyTRecover AnyTSign BelowThresholdSafe
+INVARIANTS TypeOK CountsDistinct NoFailure ThresholdIsT Agreement KeyedByShareIdx OwnShareMatches GroupKeyIsSum AnyTRecover AnyTSign BelowThresholdSafe
+PROPERTIES RedeliveryNoEffect BarrierComplete
 CHECK_DEADLOCK TRUE
